@@ -191,6 +191,7 @@ ReadAJ(aj) ==
 RECURSIVE RunX(_, _, _)
 RunX(ms, acts, i) ==
   IF i > Len(acts) THEN [st |-> ms, exc |-> "none"]
+  ELSE IF acts[i].op = "Raise" THEN [st |-> ms, exc |-> "ProvException"]
   ELSE LET r == ApplyF(ms, acts[i]) IN
        IF r.exc # "none" THEN [st |-> r.st, exc |-> r.exc] ELSE RunX(r.st, acts, i + 1)
 
@@ -208,9 +209,10 @@ DecVal(ms, h, v) ==
              du == IF dq.ok THEN Uri(dq) ELSE NONE
          IN IF du = <<"xsd#", "anyURI">> THEN [t |-> "uri", u |-> v.lex.u]
             ELSE IF du = <<"prov#", "QUALIFIED_NAME">>
-                 THEN \* resolved here; a name that does not resolve is None and new_record skips the pair
-                      (IF ResolveStrF(ms.mgr, MgrOf(ms, h), RStr([p |-> v.lex.p, l |-> v.lex.l])).ok
-                       THEN [t |-> "name", n |-> RName([p |-> v.lex.p, l |-> v.lex.l])] ELSE [t |-> "skip"])
+                 THEN \* resolved here, handed on as a QualifiedName OBJECT (validating it again may adopt a
+                      \* default namespace); a name that does not resolve is None and new_record skips the pair
+                      (LET q == ResolveStrF(ms.mgr, MgrOf(ms, h), RStr([p |-> v.lex.p, l |-> v.lex.l])) IN
+                       IF q.ok THEN [t |-> "name", n |-> NameQN(q.p, q.ns, q.l)] ELSE [t |-> "skip"])
             ELSE IF du = <<"xsd#", "int">> THEN [t |-> "nlit", T |-> "int", v |-> v.lex.v]
             ELSE IF du = <<"xsd#", "double">> THEN [t |-> "nlit", T |-> "double", v |-> v.lex.v]
             ELSE IF du = <<"xsd#", "dateTime">> THEN [t |-> "nlit", T |-> "dateTime", v |-> v.lex.v]
@@ -220,16 +222,22 @@ DecRecAct(ms, h, r) ==
   LET body   == SetToSeq(r.body)
       isF(e) == e.key.p = "prov" /\ Len(e.key.l) = 1 /\ e.key.l[1] \in JRefAttrs \cup JTimeAttrs
       one(e) == CHOOSE w \in e.vals : TRUE
+      rq(n) == ResolveStrF(ms.mgr, MgrOf(ms, h), RStr(n))
+      asObj(n) == LET q == rq(n) IN NameQN(q.p, q.ns, q.l)
       fval(e) == IF e.key.l[1] \in JTimeAttrs THEN [t |-> "dt", v |-> one(e).v]
-                 ELSE [t |-> "name", n |-> RName([p |-> one(e).p, l |-> one(e).l])]
+                 ELSE [t |-> "name", n |-> asObj([p |-> one(e).p, l |-> one(e).l])]
       \* a formal reference that does not resolve is None: the argument is simply absent
       fok(e) == e.key.l[1] \in JTimeAttrs \/ ResolveStrF(ms.mgr, MgrOf(ms, h), RStr([p |-> one(e).p, l |-> one(e).l])).ok
       fidx   == SelectSeq([i \in 1..Len(body) |-> i], LAMBDA i : isF(body[i]) /\ fok(body[i]))
       oidx   == SelectSeq([i \in 1..Len(body) |-> i], LAMBDA i : ~isF(body[i]))
+      \* the key is resolved first and handed on as an object; an unresolvable key makes new_record raise
+      keyOf(e) == IF rq(e.key).ok THEN asObj(e.key) ELSE [rep |-> "bad"]
       extrasOf(e) == LET vs == SetToSeq(e.vals)
-                         ds == [k \in 1..Len(vs) |-> <<RName(e.key), DecVal(ms, h, vs[k])>>]
+                         ds == [k \in 1..Len(vs) |-> <<keyOf(e), DecVal(ms, h, vs[k])>>]
                      IN SelectSeq(ds, LAMBDA d : d[2].t # "skip")
-  IN [op |-> "NewRec", h |-> h, k |-> JKind[r.kind], via |-> "new_record",
+      badKey == \E i \in 1..Len(body) : ~isF(body[i]) /\ ~rq(body[i].key).ok
+  IN IF badKey THEN [op |-> "Raise"] ELSE
+     [op |-> "NewRec", h |-> h, k |-> JKind[r.kind], via |-> "new_record",
       id |-> IF r.id.blank THEN <<>> ELSE <<RName([p |-> r.id.p, l |-> r.id.l])>>,
       formals |-> [i \in 1..Len(fidx) |-> <<body[fidx[i]].key.l[1], fval(body[fidx[i]])>>],
       extras |-> FlattenSeq([i \in 1..Len(oidx) |-> extrasOf(body[oidx[i]])])]
